@@ -29,7 +29,9 @@ ASSUMPTIONS = [
     "tx stream: always valid, n-th byte = base + n (base symbolic), no `last`; rx.ready free every cycle",
     "max_packet_size = 8 for the data/status endpoints (constructor parameter); EP0 keeps the class's default of 64",
 ]
-BOUNDS = "handler: BMC K=8, everything free.  device: BMC from reset over N = 3 symbolic transactions (K = 40 N + 2), OUT payloads 0..7 bytes"
+BOUNDS = "handler: BMC K=8, everything free.  device: BMC from reset over scripted sequences of 2-3 transactions (K = 40 N + 12); " \
+         "each cube pins per slot kind, flag, DATA PID, OUT length (0/1/2/7) and usually the endpoint; addresses, SETUP / OUT data " \
+         "bytes, tx stream base, tracked byte index and rx.ready (per cycle) are symbolic"
 OUTSIDE = "a complete multi-request enumeration (covered piecewise here and by C07-C10); packets with tx_ready stalls (C11/C03)"
 
 VID, PID = 0x16d0, 0x0f3b
@@ -54,6 +56,8 @@ class AcmHandlerHarness(Harness):
     def elaborate(self, platform):
         m = Module()
         m.submodules.dut = self.dut
+        tick = Signal()                      # keeps the usb domain alive for replay (the handler itself is combinational)
+        m.d.usb += tick.eq(~tick)
         itf = self.dut.interface
         s = itf.setup
         mine = (s.type == 1) & (s.request == 0x20)
@@ -269,13 +273,60 @@ def queries(tier):
             hd.setdefault(f"s{i}_dpid", 0)
     qs.append(Query("covers_3slots", f, SLOT * n + 12, asserts=[], hints=hints, timeout=900, split=False,
                     covers=list(hints), desc="witnesses: descriptor read, SET_LINE_CODING, stalls, bytes both ways"))
-    # one solver process per cube of per-slot (kind, flag, DATA PID) choices; endpoint, data, payload length symbolic
-    if tier == "quick":
-        cubes = list(slot_cubes(3, "SIPQ", first="SQ")) + list(slot_cubes(3, "Ii", first="I"))
-    else:
-        cubes = list(slot_cubes(3, "SsIiPQoN"))
-    for name, layer in cubes:
-        qs.append(Query(f"bmc_3slots_{name}", f, SLOT * n + 12, layer=layer, covers=[], timeout=900, split=False,
-                        desc=f"3 transactions {name} against the whole serial device"))
+    # One solver process per cube.  A cube pins, per slot, the transaction kind, the corruption / host-ACK flag, the DATA
+    # PID and the OUT payload length (symbolic lengths and kinds make the framing symbolic: queries of 900+ s and 20 GB
+    # instead of seconds) and, in most cubes, the endpoint; addresses and all data bytes stay symbolic.
+    quick = tier == "quick"
+
+    def opt(kind, flag=0, ep=None, dpid=0, olen=0):
+        d = dict(kind=kind, flag=flag, dpid=dpid, olen=olen)
+        if ep is not None:
+            d["ep"] = ep
+        return d
+    O = {
+        "S": opt(KIND_SETUP, 0, 0), "s": opt(KIND_SETUP, 1, 0),              # SETUP to endpoint 0 (valid / corrupted data)
+        "Z": opt(KIND_IN, 1, 0), "z": opt(KIND_IN, 0, 0),                    # IN endpoint 0 (host ACKs / does not)
+        "L": opt(KIND_OUT, 0, 0, 1, 7), "l": opt(KIND_OUT, 0, 0, 0, 7),      # OUT endpoint 0, 7 bytes, DATA1 / DATA0
+        "E": opt(KIND_OUT, 0, 0, 1, 0),                                      # status-stage OUT ZLP
+        "I": opt(KIND_IN, 1, 4), "i": opt(KIND_IN, 0, 4),                    # IN endpoint 4
+        "J": opt(KIND_IN, 1, None),                                          # IN, any endpoint
+        "N": opt(KIND_NONE),
+    }
+    for n_ in (0, 1, 2, 7):
+        O[f"Q{n_}"] = opt(KIND_OUT, 0, 4, 0, n_)                             # OUT endpoint 4, DATA0, n bytes
+        O[f"P{n_}"] = opt(KIND_OUT, 0, 4, 1, n_)                             # ... DATA1
+        O[f"q{n_}"] = opt(KIND_OUT, 1, 4, 0, n_)                             # ... corrupted CRC
+        O[f"X{n_}"] = opt(KIND_OUT, 0, None, 0, n_)                          # OUT, any endpoint, DATA0
+
+    def cube(*names):
+        layer = {}
+        for i_, nm in enumerate(names):
+            for k_, v_ in O[nm].items():
+                layer[f"s{i_}_{k_}"] = v_
+        return "".join(names), len(names), layer
+    CTRL = ["device_descriptor", "other_requests_stalled", "line_coding_data_ack", "line_coding_status"]
+    RXA = ["rx_order", "rx_count", "out_handshake"]
+    TXA = ["tx_order"]
+    plan = [  # (cube, assertions)
+        (cube("S", "Z"), CTRL), (cube("S", "z"), CTRL), (cube("s", "Z"), CTRL),
+        (cube("S", "L", "Z"), CTRL), (cube("S", "l", "Z"), CTRL), (cube("S", "S", "Z"), CTRL),
+        (cube("Q1", "P2"), RXA), (cube("Q7", "P1"), RXA), (cube("Q2", "Q2"), RXA), (cube("P1", "Q1"), RXA),
+        (cube("q2", "Q2"), RXA), (cube("Q0", "P7"), RXA), (cube("X1", "X2"), RXA),
+        (cube("I", "I"), TXA), (cube("i", "I"), TXA), (cube("I", "i"), TXA), (cube("J", "J"), TXA),
+        (cube("Q1", "I"), RXA + TXA), (cube("I", "Q1"), RXA + TXA),
+    ]
+    if not quick:
+        plan += [
+            (cube("S", "L", "z"), CTRL), (cube("S", "Z", "Z"), CTRL), (cube("S", "Z", "E"), CTRL), (cube("S", "I", "Z"), CTRL),
+            (cube("S", "Q1", "Z"), CTRL + RXA), (cube("Z", "S", "Z"), CTRL),
+            (cube("Q7", "P7", "Q1"), RXA), (cube("Q1", "P1", "Q1"), RXA), (cube("Q2", "q2", "P2"), RXA),
+            (cube("Q1", "Q1", "P1"), RXA), (cube("P2", "Q2", "P2"), RXA), (cube("X2", "X1", "X2"), RXA),
+            (cube("I", "I", "I"), TXA), (cube("I", "i", "I"), TXA), (cube("i", "i", "I"), TXA), (cube("J", "J", "J"), TXA),
+            (cube("Q2", "I", "P2"), RXA + TXA), (cube("I", "Q7", "I"), RXA + TXA),
+        ]
+    for (name, ns, layer), asserts in plan:
+        fac = (lambda ns=ns: SerialHarness(ns))
+        qs.append(Query(f"bmc_{name}", fac, SLOT * ns + 12, layer=layer, asserts=asserts, covers=[], timeout=900, split=False,
+                        tactic="portfolio", desc=f"transactions {name} against the whole serial device"))
     qs.append(Query("cosim_device", f, 0, kind="cosim", cosim_cycles=120 if tier == "quick" else 400))
     return qs
